@@ -209,6 +209,11 @@ impl Screen {
 
         self.dirty.extend(0..lines);
 
+        // The scrolling region is reset to the whole screen. Do it before
+        // dropping lines: delete_lines is confined to (and refused outside)
+        // the region.
+        self.set_margins(None, None);
+
         if lines < self.lines {
             self.save_cursor();
             self.cursor_position(Some(0), Some(0));
@@ -225,7 +230,6 @@ impl Screen {
         }
 
         (self.lines, self.columns) = (lines, columns);
-        self.set_margins(None, None);
     }
 
     // Ensure the cursor is within horizontal screen bounds."""
